@@ -423,6 +423,23 @@ impl Prop for C06 {
         None
     }
 
+    fn shrink(c: &Case) -> Vec<Case> {
+        let mut out: Vec<Case> = gen::shrink_dg(&c.g)
+            .into_iter()
+            .map(|(g, k)| Case {
+                g,
+                sources: gen::relabel_list(&c.sources, k),
+                family: String::new(),
+            })
+            .collect();
+        out.extend(gen::shrink_list(&c.sources).into_iter().map(|s| Case {
+            g: c.g.clone(),
+            sources: s,
+            family: String::new(),
+        }));
+        out
+    }
+
     fn check(c: &Case, obs: &mut Obs) -> Verdict {
         let m = reprs::model_of(&c.g);
         let s = &c.sources;
